@@ -622,6 +622,16 @@ def r16_pairing(idx, r):
     pairing_rule(idx, r, ["armi.bookkeeping.db.databaseInterface", "armi.bookkeeping.db.database", "armi.bookkeeping.historyTracker", "armi.bookkeeping.snapshotInterface"], 40)
 
 
+def r_borrowed_r06_18(idx, r):
+    """clauses of C04/C15 a snapshot rests on: jagged offsets advance by what was appended (R04.6), free coordinates decode as floats (R04.3), the first cycle starts at the start node (R15.2)"""
+    from ..report import Only
+    from .c04 import r6_jagged, r3_location_codes
+    from .c15 import r2_cycle
+    r6_jagged(idx, Only(r, ["offset-step"]))
+    r3_location_codes(idx, Only(r, ["decode-float"]))
+    r2_cycle(idx, Only(r, ["starting-node"]))
+
+
 def run(idx, chk):
     chk.explanation = (
         "C06: writers of the successfulCompletion flag and callers that can pass a true value; the chain Case.run -> Operator.__exit__ -> "
@@ -661,3 +671,5 @@ def run(idx, chk):
                  necessary="(cycle, node, label) reach the reader in that order")
     chk.run_rule("R06.17", "interactAllEOL on every normal exit of the main loop (R15.1); the tracker asks the database whether a step is written", lambda r: r17_finalised_on_every_exit_and_live_answers(idx, r), floor=3,
                  necessary="a run that ends normally leaves a finalised file; histories return the written value of every written step")
+    chk.run_rule("R06.18", "clauses of C04/C15 a snapshot rests on: jagged offsets advance by what was appended (R04.6), free coordinates decode as floats (R04.3), the first cycl", lambda r: r_borrowed_r06_18(idx, r), floor=3,
+                 necessary="a snapshot holds the state of its step; a restart begins at the node asked for")
